@@ -43,8 +43,9 @@ for name in ("sum", "max", "min", "amax", "amin", "mean", "median", "nansum", "n
     shapes = S_ANY if name in ("sum", "mean", "nansum", "nanmean") else [s for s in S_ANY if s != (0,)]
     unary("np." + name, f, AX, shapes, gen="nan" if nan else "f", dts="f" if nan else "fic" if name in ("sum", "mean") else "fi")
     with_out("np." + name, f, {"axis": 0}, (2, 3), (3,), gen="nan" if nan else "f")
-unary("np.sum", np.sum, [{"axis": (0, 1)}, {"initial": 2.0}, {"where": np.array([True, False, True])}], [(2, 3)])
-unary("np.max", np.max, [{"initial": 100.0, "where": np.array([True, False, True])}], [(2, 3)])
+unary("np.sum", np.sum, [{"axis": (0, 1)}, {"where": np.array([True, False, True])}], [(2, 3)])
+unary("np.sum", np.sum, [{"initial": 2.0}], [(2, 3)], noncov="bare initial= is read in the array's current unit")
+unary("np.max", np.max, [{"initial": 100.0, "where": np.array([True, False, True])}], [(2, 3)], noncov="bare initial= is read in the array's current unit")
 unary("np.mean", np.mean, [{"dtype": np.float32}], [(4,)])
 unary("np.median", np.median, [{"overwrite_input": False, "axis": 0}], [(3, 3)])
 unary("np.average", np.average, [{}, {"axis": 0}, {"axis": 1, "keepdims": True}], S_ND, dts="fic")
@@ -116,6 +117,8 @@ unary("np.argpartition", lambda a, **kw: np.argpartition(a, 1, **kw), [{}, {"axi
 for name in ("argsort", "argmax", "argmin", "nanargmax", "nanargmin"):
     unary("np." + name, getattr(np, name), [{}, {"axis": 0}, {"axis": 1}], [(4,), (2, 3)], cls="bare", dts="fi")
 unary("np.argmax", np.argmax, [{"axis": 1, "keepdims": True}], [(2, 3)], cls="bare")
+unary("np.argsort", np.argsort, [{"kind": "stable"}, {"stable": True}, {"kind": "stable", "axis": 0}], [(64,), (40, 2)], gen="dup", cls="bare")
+unary("np.sort", np.sort, [{"kind": "stable"}, {"stable": True}], [(64,)], gen="dup")
 for name in ("nonzero", "flatnonzero", "argwhere", "count_nonzero"):
     unary("np." + name, getattr(np, name), [{}], [(4,), (2, 3)], gen="dup", cls="bare")
 unary("np.count_nonzero", np.count_nonzero, [{"axis": 0}, {"axis": 1, "keepdims": True}], [(2, 3)], gen="dup", cls="bare")
